@@ -466,9 +466,13 @@ class Run:
         self.lines = []
 
     # -----------------------------------------------------------------------------------------------------------------
+    force_pre = None
+
     def embed(self, rng, packed: bytes, ends_in_raw: bool):
         mode = rng.choice(["zero", "pre", "pre", "both", "both", "both"])
         pre = b"" if mode == "zero" else rbytes(rng, rng.choice([1, 2, 3, 7, 22, 23, 31, rng.randrange(1, 80)]))
+        if self.force_pre is not None:
+            pre, mode = rbytes(rng, self.force_pre), "both"
         post = b"" if (mode in ("zero", "pre") or ends_in_raw) else rbytes(rng, rng.randrange(1, 12))
         self.ctx.count("offset:" + ("0" if not pre else "1-22" if len(pre) < 23 else "23+"))
         self.ctx.count("suffix:" + ("none" if not post else "some"))
@@ -507,9 +511,9 @@ class Run:
                 v = gen_value(rng, d, ctx, maximal=maximal)
                 self.one_packer(rng, name, d, v, idx)
 
-    def one_packer(self, rng, name, d, v, idx):
+    def one_packer(self, rng, name, d, v, idx, section=S_PACKERS):
         ctx = self.ctx
-        rep = {"section": S_PACKERS, "index": idx, "packer": name, "value": short_repr(v)}
+        rep = {"section": section, "index": idx, "packer": name, "value": short_repr(v)}
         site = f"{type(self.ser.get_packer_for(name)).__name__}[{name}]"
         tok = token(d, v)
         ctx.count("packer:" + name)
@@ -581,6 +585,70 @@ class Run:
         if k == "nested":
             return [self.norm(f, x) for f, x in zip(d["fields"], v)]
         return v
+
+    # --- section: small-scope exhaustive enumerations -------------------------------------------------------------------
+    def offset_sweep(self, max_off: int):
+        """every registered packer, one value, EVERY start offset 0..max_off"""
+        reg = self.info["registry"]
+        names = [n for n, d in reg.items() if d["kind"] not in ("payload", "payloadList")]
+        idx = 0
+        try:
+            for name in names:
+                for off in range(max_off + 1):
+                    idx += 1
+                    if not self.want("sweep", idx):
+                        continue
+                    rng = self.rng_for("sweep", idx)
+                    v = gen_value(rng, reg[name], None)
+                    self.force_pre = off
+                    self.one_packer(rng, name, reg[name], v, idx, section="sweep")
+        finally:
+            self.force_pre = None
+        self.ctx.count("offset_sweep:0..%d" % max_off, idx)
+
+    def flags_exhaustive(self):
+        """flags: every subset of at most two of the 16 bits, and all bits"""
+        reg = self.info["registry"]
+        if "flags" not in reg or reg["flags"]["kind"] != "flags":
+            return
+        bits = 8 * reg["flags"]["width"]
+        subsets = [[]] + [[i] for i in range(bits)] + [[i, j] for i in range(bits) for j in range(i + 1, bits)] + [list(range(bits))]
+        for idx, sel in enumerate(subsets, 1):
+            if not self.want("flagsx", idx):
+                continue
+            rng = self.rng_for("flagsx", idx)
+            self.one_packer(rng, "flags", reg["flags"], [2 ** i for i in sel], idx, section="flagsx")
+        self.ctx.count("flags:subsets<=2", len(subsets))
+
+    def old_exhaustive(self):
+        """hand-written payloads: every combination of their boolean flags and connection types"""
+        import itertools
+        by = {p["name"].rpartition(".")[2]: p for p in self.info["payloads"] if p["kind"] == "old"}
+        idx = 0
+        conns = ["unknown", "public", "symmetric-NAT"]
+        combos = []
+        for adv, sns, ct in itertools.product([False, True], [False, True], conns):
+            combos.append(("IntroductionRequestPayload", lambda r, adv=adv, sns=sns, ct=ct:
+                           (_v4(r), _v4(r), _v4(r), adv, ct, _ident(r), rbytes(r, 3), sns)))
+            if sns:
+                combos.append(("DiscoveryIntroductionRequestPayload", lambda r, adv=adv, ct=ct:
+                               (gen_fixed(r, 20), _v4(r), _v4(r), _v4(r), adv, ct, _ident(r), rbytes(r, 2))))
+        for a, b, c, ct in itertools.product([False, True], [False, True], [False, True], conns):
+            combos.append(("IntroductionResponsePayload", lambda r, a=a, b=b, c=c, ct=ct:
+                           (_v4(r), _v4(r), _v4(r), _v4(r), _v4(r), ct, _ident(r), rbytes(r, 2), a, b, c)))
+        for ct in conns:
+            combos.append(("SimilarityRequestPayload", lambda r, ct=ct: (_ident(r), _v4(r), _v4(r), ct, [gen_fixed(r, 20)])))
+        for cn, mk in combos:
+            idx += 1
+            if cn not in by or not self.want("oldx", idx):
+                continue
+            rng = self.rng_for("oldx", idx)
+            p = by[cn]
+            cls = self.load_class(p["name"])
+            obj = cls(*mk(rng))
+            names = [a for a, _ in OLD[cn]["attrs"]]
+            self.one_class(rng, p, obj, names, "plain", idx, section="oldx")
+        self.ctx.count("old_flag_combinations", idx)
 
     # --- section: illegal pack inputs (model must predict the error) -----------------------------------------------------
     def illegal(self):
@@ -763,12 +831,12 @@ class Run:
             return [a for a, _ in OLD[type(obj).__name__]["attrs"]]
         return names
 
-    def one_class(self, rng, p, obj, names, mode, idx):
+    def one_class(self, rng, p, obj, names, mode, idx, section=S_CLASSES):
         ctx = self.ctx
         cn = p["name"].rpartition(".")[2]
         cls = type(obj)
         fields = self.field_names(p, obj, names)
-        rep = {"section": S_CLASSES, "index": idx, "class": p["name"], "mode": mode,
+        rep = {"section": section, "index": idx, "class": p["name"], "mode": mode,
                "fields": {f: short_repr(getattr(obj, f), 120) for f in fields}}
         ctx.count("class_kind:" + p["kind"])
         ctx.count("embedding:" + mode)
@@ -1324,9 +1392,21 @@ def live_info(ctx: Ctx):
     return info, spec, False
 
 
+def SCALE(ctx):
+    return {"packers": ctx.scale(120, 800), "classes": ctx.scale(80, 600), "adhoc": ctx.scale(1500, 15000),
+            "cells": ctx.scale(200, 2000), "ulists": ctx.scale(400, 4000), "trunc": ctx.scale(5000, 50000),
+            "sweep": ctx.scale(12, 64)}
+
+
+SEARCH_SCALE = {"packers": 300, "classes": 200, "adhoc": 3000, "cells": 300, "ulists": 500, "trunc": 0, "sweep": 8}
+
+
 def sections(r: Run, ctx: Ctx, scale):
     r.spec_oracle()
     r.bits_exhaustive()
+    r.flags_exhaustive()
+    r.old_exhaustive()
+    r.offset_sweep(scale["sweep"])
     r.packers(scale["packers"])
     r.illegal()
     r.classes(scale["classes"])
@@ -1342,8 +1422,7 @@ def run(ctx: Ctx):
     use_model = ctx.model_ok and translated
     if ctx.replay_input is not None:
         return replay(ctx, info, spec)
-    scale = {"packers": ctx.scale(40, 400), "classes": ctx.scale(30, 300), "adhoc": ctx.scale(400, 6000),
-             "cells": ctx.scale(100, 1000), "ulists": ctx.scale(150, 2000), "trunc": ctx.scale(1500, 20000)}
+    scale = SCALE(ctx)
     r = Run(ctx, info, spec, use_model)
     sections(r, ctx, scale)
     ctx.extra["translator"] = {"packers": len(info["registry"]), "payload_classes": len(info["payloads"]),
@@ -1353,7 +1432,7 @@ def run(ctx: Ctx):
 def search(ctx: Ctx, reason: str):
     info, spec, _ = live_info(ctx)
     r = Run(ctx, info, spec, False)
-    sections(r, ctx, {"packers": 300, "classes": 200, "adhoc": 3000, "cells": 300, "ulists": 500, "trunc": 0})
+    sections(r, ctx, SEARCH_SCALE)
 
 
 def replay(ctx: Ctx, info, spec):
@@ -1364,12 +1443,11 @@ def replay(ctx: Ctx, info, spec):
     section, index = rp.get("section"), rp.get("index")
     print(f"replay: section={section} index={index} seed={seed} tier={tier}: {json.dumps(rp)[:600]}")
     r = Run(ctx, info, spec, False, only=(section, index))
-    scale = {"packers": ctx.scale(40, 400), "classes": ctx.scale(30, 300), "adhoc": ctx.scale(400, 6000),
-             "cells": ctx.scale(100, 1000), "ulists": ctx.scale(150, 2000), "trunc": 0}
+    scale = SCALE(ctx)
     for searching in (False, True):
         ctx.searching = searching
         if searching:
-            scale = {"packers": 300, "classes": 200, "adhoc": 3000, "cells": 300, "ulists": 500, "trunc": 0}
+            scale = SEARCH_SCALE
         if section == S_SPEC:
             r.spec_oracle()
         elif section == S_BITS:
@@ -1384,6 +1462,12 @@ def replay(ctx: Ctx, info, spec):
             r.cells(scale["cells"])
         elif section == S_ULIST:
             r.ulists(scale["ulists"])
+        elif section == "sweep":
+            r.offset_sweep(scale["sweep"])
+        elif section == "flagsx":
+            r.flags_exhaustive()
+        elif section == "oldx":
+            r.old_exhaustive()
         if ctx.failures:
             break
     ctx.searching = False
